@@ -68,8 +68,10 @@ def parse_output(out, names):
             if m: absorb(m.group(1), b)
     return res
 
-def run(names, repo='/repo', jobs=4, playback=False, keep=False, extra_timeout=None):
-    reg = {h['name']: h for h in registry()}
+def run(names, repo='/repo', jobs=4, playback=False, keep=False, extra_timeout=None, overrides=None):
+    reg = {h['name']: dict(h) for h in registry()}
+    for n_, o_ in (overrides or {}).items():
+        if n_ in reg: reg[n_].update(o_)
     hs = [reg[n] for n in names]
     files = {}
     for h in hs: files[os.path.join(ROOT, 'kani', h['file'])] = h['append_to']
